@@ -687,3 +687,92 @@ func (r *Region) AllInstrs(f func(ssa.Instruction)) {
 		allInstrs(fn, false, func(_ *ssa.Function, _ *ssa.BasicBlock, in ssa.Instruction) { f(in) })
 	}
 }
+
+// privHelper: IntoCallees predicate accepting the unexported package-level functions/methods of one package — the helpers a
+// refactoring extracts statements into. Unlike a Region it does not require a single call site: backSlice enters the callee
+// from one particular call and maps its parameters back to that call's arguments, so contexts are not merged.
+func privHelper(pkg string) func(*ssa.Function) bool {
+	return func(f *ssa.Function) bool {
+		if f == nil || f.Blocks == nil || f.Parent() != nil || pkgPathOf(f) != pkg {
+			return false
+		}
+		obj := f.Object()
+		return obj != nil && !obj.Exported()
+	}
+}
+
+// argReaches: argument argIdx of call c — which may sit in a helper entered by the slice — denotes `target` of the root function:
+// directly, or because it is a parameter of the helper whose actual argument at the helper's call (a call in the slice) does.
+func argReaches(sl *Slice, c *ssa.Call, argIdx int, target ssa.Value, depth int) bool {
+	if argIdx >= len(c.Call.Args) {
+		return false
+	}
+	v := resolveLocal(c.Call.Args[argIdx])
+	if v == target {
+		return true
+	}
+	p, ok := v.(*ssa.Parameter)
+	if !ok || depth <= 0 {
+		return false
+	}
+	h := p.Parent()
+	idx := paramIndex(p)
+	for _, hc := range sl.Calls() {
+		if hc.Call.StaticCallee() == h && argReaches(sl, hc, idx, target, depth-1) {
+			return true
+		}
+	}
+	return false
+}
+
+// boolFnTrueOnlyUnder: the bool-returning function h can return true only (a) from a block that is reachable only through the
+// surviving edge of one of `guards` (guards of h itself), (b) as the constant true that the surviving edge of such a guard feeds
+// straight into a φ (short-circuit `a || b`), or (c) as a value accepted by okVal (e.g. `return d.Empty(addr)`). This is the
+// summary that lets `if h(x) { … }` stand for the conditions that were extracted into the predicate helper h.
+func boolFnTrueOnlyUnder(h *ssa.Function, guards []Guard, okVal func(ssa.Value) bool) bool {
+	rets := returnsOf(h)
+	if len(rets) == 0 {
+		return false
+	}
+	ok := true
+	var visit func(v ssa.Value, at *ssa.BasicBlock, into *ssa.BasicBlock, depth int)
+	visit = func(v ssa.Value, at, into *ssa.BasicBlock, depth int) {
+		if b, isK := constBool(v); isK {
+			if !b {
+				return
+			}
+			if blockGuarded(h, at, guards) {
+				return
+			}
+			if i, isIf := lastIf(at); isIf && into != nil {
+				for _, g := range guards {
+					if g.If == i && at.Succs[g.Survive] == into && at.Succs[0] != at.Succs[1] {
+						return
+					}
+				}
+			}
+			ok = false
+			return
+		}
+		if okVal != nil && okVal(v) {
+			return
+		}
+		if phi, isPhi := v.(*ssa.Phi); isPhi && depth < 6 {
+			for k, ev := range phi.Edges {
+				visit(ev, phi.Block().Preds[k], phi.Block(), depth+1)
+			}
+			return
+		}
+		if blockGuarded(h, at, guards) {
+			return
+		}
+		ok = false
+	}
+	for _, ret := range rets {
+		if len(ret.Results) != 1 {
+			return false
+		}
+		visit(ret.Results[0], ret.Block(), nil, 0)
+	}
+	return ok
+}
